@@ -1363,6 +1363,10 @@ class TaskScenario(ScenarioData):
         # (they work together as a team - can't progress if any member is unavailable)
         if effort > 0 and len(resources_to_book) > 1:
             all_available = True
+            slot_idx = self.currentSlotIdx if self.currentSlotIdx is not None else 0
+            # Members already checked are counted provisionally, so that limit counters
+            # shared by several members (group limits, task limits) admit the whole team.
+            counted = []
             for resource in resources_to_book:
                 res_scenario = resource.data[self.scenarioIdx] if resource.data else None
                 if res_scenario is None:
@@ -1370,7 +1374,6 @@ class TaskScenario(ScenarioData):
                     break
                 if res_scenario.scoreboard is None:
                     res_scenario.prepareScheduling()
-                slot_idx = self.currentSlotIdx if self.currentSlotIdx is not None else 0
                 if not res_scenario.available(slot_idx):
                     all_available = False
                     break
@@ -1378,6 +1381,10 @@ class TaskScenario(ScenarioData):
                 if not self.limitsOk(slot_idx, resource):
                     all_available = False
                     break
+                self._countTeamMember(slot_idx, resource, +1)
+                counted.append(resource)
+            for resource in counted:
+                self._countTeamMember(slot_idx, resource, -1)
 
             if not all_available:
                 # Can't book - one or more resources unavailable
@@ -1458,6 +1465,17 @@ class TaskScenario(ScenarioData):
         """
         for limits in self.getAllLimits():
             limits.inc(sbIdx, resource=resource.id if resource else None)
+
+    def _countTeamMember(self, sbIdx: int, resource: Any, delta: int) -> None:
+        """Count (+1) or uncount (-1) a booking of resource in every limit a real booking would increment."""
+        node: Optional[Any] = resource
+        while node is not None:
+            limits = node.get("limits", self.scenarioIdx)
+            if limits and hasattr(limits, "inc"):
+                limits.inc(sbIdx) if delta > 0 else limits.dec(sbIdx)
+            node = node.parent
+        for limits in self.getAllLimits():
+            limits.inc(sbIdx, resource=resource.id) if delta > 0 else limits.dec(sbIdx, resource=resource.id)
 
     def bookResource(self, resource: Any) -> float:
         """
